@@ -375,6 +375,12 @@ func seedEntries(c Case, objs []seedObj) []entry {
 		if kind == 6 && pos[o.prev] > p {
 			kind = 7
 		}
+		if kind != 0 && len(makeDelta(objs[o.prev].data, o.data)) < 4 {
+			// git refuses a delta instruction stream shorter than DELTA_SIZE_MIN (4 bytes), e.g. the
+			// delta to an empty target: a seed pack must be one git accepts, so store such objects whole
+			// (that go-git accepts such deltas is recorded under C06 and as a C09 finding)
+			kind = 0
+		}
 		e := entry{id: o.id}
 		switch kind {
 		case 0:
